@@ -27,6 +27,75 @@ let enc_bool b = if b then "1" else "0"
 let enc_list (f : 'a -> string) (l : 'a list) : string =
   if l = [] then "[]" else String.concat "," (List.map f l)
 
+
+(* ---- pattern AST wire format (see tools/astgen.py) ---- *)
+exception Parse_error of string
+let parse_seq (s : string) (pos : int ref) : pat list =
+  let n = String.length s in
+  let peek () = if !pos < n then s.[!pos] else '\000' in
+  let adv () = incr pos in
+  let hex () =
+    let st = !pos in
+    while !pos < n && (match s.[!pos] with '0'..'9' | 'a'..'f' -> true | _ -> false) do incr pos done;
+    if !pos = st then raise (Parse_error "hex");
+    n_of_int (int_of_string ("0x" ^ String.sub s st (!pos - st))) in
+  let name () =
+    let st = !pos in
+    while !pos < n && (match s.[!pos] with 'a'..'z' -> true | _ -> false) do incr pos done;
+    let w = String.sub s st (!pos - st) in
+    List.init (String.length w) (fun i -> n_of_int (Char.code w.[i])) in
+  let rec seq () : pat list =
+    (match peek () with
+     | 'l' | 'e' | 's' | 'q' | 'b' | 'x' ->
+         let t = tok () in
+         if peek () = '.' then (adv (); t :: seq ()) else [t]
+     | _ -> [])
+  and tok () : pat =
+    match peek () with
+    | 'l' -> adv (); PLit (hex ())
+    | 'e' -> adv (); PEsc (hex ())
+    | 's' -> adv (); PStar
+    | 'q' -> adv (); PQm
+    | 'b' -> adv ();
+        let neg = (peek () = '1') in adv ();
+        if peek () <> '[' then raise (Parse_error "["); adv ();
+        let rec items () =
+          let it = (match peek () with
+            | 'c' -> adv (); BChar (hex ())
+            | 'r' -> adv (); let lo = hex () in if peek () <> '-' then raise (Parse_error "-"); adv (); let hi = hex () in BRange (lo, hi)
+            | 'p' -> adv (); BPosix (name ())
+            | _ -> raise (Parse_error "item")) in
+          if peek () = ',' then (adv (); it :: items ()) else [it] in
+        let its = items () in
+        if peek () <> ']' then raise (Parse_error "]"); adv ();
+        PBr (neg, its)
+    | 'x' -> adv ();
+        let k = (match peek () with 'Q' -> KQ | 'S' -> KS | 'P' -> KP | 'A' -> KA | 'N' -> KN | _ -> raise (Parse_error "kind")) in
+        adv ();
+        if peek () <> '(' then raise (Parse_error "("); adv ();
+        let rec alts () =
+          let a = seq () in
+          if peek () = ';' then (adv (); a :: alts ()) else [a] in
+        let al = alts () in
+        if peek () <> ')' then raise (Parse_error ")"); adv ();
+        PExt (k, al)
+    | _ -> raise (Parse_error "tok") in
+  seq ()
+
+let parse_pats (s : string) : pat list =
+  if s = "-" then [] else
+  let pos = ref 0 in
+  let r = parse_seq s pos in
+  if !pos <> String.length s then raise (Parse_error ("trailing at " ^ string_of_int !pos)) else r
+
+let parse_ppat (s : string) : ppat =
+  (* R:seg/seg/...:T  ; seg = g | G | seq *)
+  match String.split_on_char ':' s with
+  | [r; segs; t] ->
+      let one x = if x = "g" then SGlobstar else if x = "G" then SGlobstarLong else SPat (parse_pats x) in
+      { p_root = (r = "R"); p_segs = (if segs = "" then [] else List.map one (String.split_on_char '/' segs)); p_trail = (t = "T") }
+  | _ -> raise (Parse_error "ppat")
+
 let handle (line : string) : string =
   match String.split_on_char ' ' line with
   | ["wcparse"; fl; isb; p] ->
@@ -63,6 +132,14 @@ let handle (line : string) : string =
          | Inr LFuel -> "fuel"
          | Inr LUnsupported -> "unsupported")
       with Exit -> "oraclemiss")
+  | ["den"; lb; ci; dot; ast; names] ->
+      let ps = parse_pats ast in
+      let ns = if names = "[]" then [] else List.map dec_str (String.split_on_char ',' names) in
+      enc_str (unparse ps) ^ " " ^ String.concat "" (List.map (fun nm -> enc_bool (den (dec_bool lb) (dec_bool ci) (dec_bool dot) ps nm)) ns)
+  | ["pden"; lb; ci; dot; gs; gl; mb; ast; names] ->
+      let pp = parse_ppat ast in
+      let ns = if names = "[]" then [] else List.map dec_str (String.split_on_char ',' names) in
+      enc_str (punparse pp) ^ " " ^ String.concat "" (List.map (fun nm -> enc_bool (pden (dec_bool lb) (dec_bool ci) (dec_bool dot) (dec_bool gs) (dec_bool gl) (dec_bool mb) pp nm)) ns)
   | _ -> "badrequest"
 
 let () =
